@@ -2,7 +2,8 @@
 //!
 //! The *ideal* model is `ModelLevel { kf1: false, kf2: false }`. The two switches reproduce the
 //! mechanisms described by the open entries of KNOWN_FINDINGS.txt:
-//!   kf1 = requeue_partial_fill_at_tail   (a partially filled maker is re-queued at the tail)
+//!   kf1 = requeue_partial_fill_at_tail   (a maker that survives a match without being replenished - partially
+//!                                         filled, or set aside because it can give nothing - is re-queued at the tail)
 //!   kf2 = stale_ticket_keeps_position    (removal leaves the arrival ticket behind; any ticket whose
 //!                                         id is resting is honoured)
 
@@ -354,6 +355,9 @@ impl ModelLevel {
         let mut fills: Vec<(u128, u64)> = vec![];
         let mut left: Vec<u128> = vec![];
         let mut set_aside: Vec<Ord_> = vec![];
+        // ideal model: survivors that were not replenished (partially filled, or unable to give anything)
+        // keep their place: they are put back at the front, in their original relative order, when the call ends
+        let mut keep_place: Vec<Ord_> = vec![];
         let mut rounds = 0u64;
         while remaining > 0 {
             rounds += 1;
@@ -372,15 +376,18 @@ impl ModelLevel {
             match m.updated {
                 Some(u) => {
                     if m.consumed == 0 && m.hidden_reduced == 0 {
-                        // can give nothing: set aside for the rest of the call
-                        set_aside.push(u);
-                    } else if m.replenished || self.kf1 {
+                        // can give nothing: out of the queue for the rest of the call
+                        if self.kf1 {
+                            set_aside.push(u);
+                        } else {
+                            keep_place.push(u);
+                        }
+                    } else if m.replenished && !(m.consumed == 0 && m.hidden_reduced == 0) || self.kf1 {
                         self.orders.push(u);
                         self.tickets.push_back(id);
                     } else {
                         // partially filled, not replenished: keeps its place
-                        self.orders.push(u);
-                        self.tickets.push_front(id);
+                        keep_place.push(u);
                     }
                 }
                 None => {
@@ -393,6 +400,11 @@ impl ModelLevel {
             let id = o_id(&u);
             self.orders.push(u);
             self.tickets.push_back(id);
+        }
+        for u in keep_place.into_iter().rev() {
+            let id = o_id(&u);
+            self.orders.push(u);
+            self.tickets.push_front(id);
         }
         // filled list: makers that traded in this call and are no longer in the book, in leaving order
         let filled: Vec<u128> = left
